@@ -211,6 +211,70 @@ def leg_bundled(run, thorough, seed):
     return events
 
 
+USER_DEFS = ["verifa 3 m", "verifb 2 verifa", "verifq- 1000", "verifc verifqverifb / 7", "verifd verifc verifa",
+             "verife 1|3 verifd s", "verifr ? length^7 / time^3", "veriff verifqverifa^2 / verife"]
+CLI_QUERIES = ["verifa", "1 verifb -> m", "1 verifc -> m", "1 verifd -> m^2", "1 verife -> m^2 s", "1 veriff -> 1/s",
+               "1 verifqverifd -> verifd", "verifr", "3 verifbs + 1 verifa -> m"]
+
+
+def leg_cli(run, thorough, seed):
+    """the same user definitions spread over ./definitions.units and <config dir>/rink/definitions.units in every way
+    (cli/src/config.rs concatenates the parsed lists): the real `rink` binary must answer alike for every split"""
+    import hashlib
+    import random
+    import shutil
+    import subprocess
+    from engines import c20
+    c20.build_cli()
+    rng = random.Random(seed)
+    n = len(USER_DEFS)
+    masks = list(range(2 ** n))
+    if not thorough:
+        masks = [0, 2 ** n - 1] + rng.sample(masks[1:-1], 22)
+    root = vlib.workfile("c12-cli")
+    shutil.rmtree(root, ignore_errors=True)
+    events = []
+    ref = None
+    for mask in masks:
+        d = os.path.join(root, "m%d" % mask)
+        cfg = os.path.join(d, "cfg", "rink")
+        cwd = os.path.join(d, "cwd")
+        os.makedirs(cfg)
+        os.makedirs(cwd)
+        here = [USER_DEFS[i] for i in range(n) if mask >> i & 1]
+        there = [USER_DEFS[i] for i in range(n) if not mask >> i & 1]
+        rng.shuffle(here)
+        rng.shuffle(there)
+        if here:
+            open(os.path.join(cwd, "definitions.units"), "w").write("\n".join(here) + "\n")
+        if there:
+            open(os.path.join(cfg, "definitions.units"), "w").write("\n".join(there) + "\n")
+        open(os.path.join(cfg, "config.toml"), "w").write("[currency]\nenabled = false\n")
+        env = vlib.child_env({"XDG_CONFIG_HOME": os.path.join(d, "cfg"), "XDG_CACHE_HOME": os.path.join(d, "cache"),
+                              "XDG_DATA_HOME": os.path.join(d, "data"), "HOME": d})
+        outs = []
+        for q in CLI_QUERIES:
+            p = subprocess.run([c20.RINK, q], cwd=cwd, env=env, stdout=subprocess.PIPE, stderr=subprocess.STDOUT, text=True, timeout=120)
+            outs.append("%d|%s" % (p.returncode, p.stdout.strip()))
+        text = "\n".join(outs)
+        dg = list(hashlib.sha256(text.encode()).digest()[:6])
+        run.count()
+        run.nontrivial("cli:%d" % mask)
+        events.append({"ev": "loads", "set": "cli-user-files", "loads": 1, "digest": dg})
+        if ref is None:
+            ref = (mask, text)
+            run.sample({"leg": "CLI", "split_mask": mask, "answers": outs[:4]})
+            if "verifa" not in text or "No such unit" in outs[1] or outs[1].startswith("1|"):
+                raise vlib.ToolError("CLI leg: the reference split does not load the user definitions: %s" % outs[:3])
+        elif text != ref[1]:
+            bad = [(q, a, b) for q, a, b in zip(CLI_QUERIES, ref[1].split("\n"), outs) if a != b]
+            run.violation({"engine": "cli-split", "mask": mask, "here": here, "there": there, "query": bad[0][0]},
+                          "the same answers as for the split with mask %d" % ref[0], {"expected": bad[0][1], "observed": bad[0][2]}, "cli-split")
+    shutil.rmtree(root, ignore_errors=True)
+    log("[C12] CLI: %d splits of %d user definitions over ./ and the config dir" % (len(masks), n))
+    return events
+
+
 def run(tier, seed):
     run = vlib.Run(PROP, tier, seed, "model_checking")
     thorough = tier == "thorough"
@@ -231,6 +295,7 @@ def run(tier, seed):
     events = leg_generated(run, thorough)
     t2 = time.time()
     events += leg_bundled(run, thorough, seed)
+    events += leg_cli(run, thorough, seed)
     t3 = time.time()
     rejected = order_trace(run, events, "ord")
     log("[C12] wall: design %.0fs, generated %.0fs, bundled %.0fs, trace %.0fs" % (t1 - t0, t2 - t1, t3 - t2, time.time() - t3))
